@@ -29,7 +29,7 @@ def blank(i, op):
     return {"id": i, "op": op, "outcome": "", "p": NULLPATH, "q": NULLPATH, "result": NULLPATH, "len": 0, "a": 0, "b": 0,
             "simp": [], "rebuilt": NULLPATH, "rebuilt_eq": True, "doc": V("none"), "keys": [], "datum": V("none"),
             "concrete": True, "unchanged": True, "paths": [], "predicted": [], "rcond": {"t": "null"}, "is_value": False,
-            "is_key": False, "is_index": False, "nleaves": 0, "nops": 0}
+            "is_key": False, "is_index": False, "nleaves": 0, "nops": 0, "table": [], "reasons": []}
 
 
 def build_path(rparts):
@@ -45,7 +45,7 @@ def make_events(rng, n):
     evs = []
     for _ in range(n):
         doc = gen.document(rng, depth=3, strish=0.7)
-        k = rng.randrange(6)
+        k = rng.randrange(8)
         e = None
         try:
             if k == 0:
@@ -111,6 +111,27 @@ def make_events(rng, n):
                         for kk in range(len(p)):
                             t = pred[f"{p[0:kk]!r}"]
                             e["predicted"].append({"r": r, "k": kk, "type": t.name})
+            elif k in (6, 7):
+                e = blank(len(evs) + 1, "reasons")
+                t = gen.tree_recipe(rng, depth=rng.randint(0, 3), kinds=gen.VALUE_KINDS, null_p=0.05)
+                d = [gen.value(rng, 1) for _ in range(rng.randint(1, 4))]
+                e["rcond"] = enc_tree(t)
+                e["doc"] = enc_val(d)
+                out, c = outcome_of(lambda: gen.build_tree(t))
+                if c is None:
+                    continue
+                out, fd = outcome_of(lambda: c.filter(d))
+                e["outcome"] = out
+                if fd is not None:
+                    tt = fd.truth_table
+                    e["table"] = [[bool(row[1][j]) for row in tt] for j in range(len(d))]
+                    kinds = {"Condition pre-processor raised": "pre", "Condition callable raised": "err",
+                             "Condition callable returned False": "false"}
+                    rs = []
+                    for j in range(len(d)):
+                        f = fd.get_failure_by_index(j)
+                        rs.append([] if f is None else [next(v for kk, v in kinds.items() if m.startswith(kk)) for m in f])
+                    e["reasons"] = rs
             else:
                 e = blank(len(evs) + 1, "kinds")
                 t = gen.tree_recipe(rng, depth=rng.randint(0, 3), kinds=rng.choice([gen.VALUE_KINDS, gen.KEY_KINDS + gen.VALUE_KINDS,
